@@ -29,6 +29,7 @@ def REQUIRED(tier):
 
 
 def run(rec, cfg):
+    rec.accept = {"structure"}
     MR.CHECKS.update({"structure"})
     MR.attach_apply()
     rng = cfg.rng("c07")
